@@ -62,8 +62,22 @@ def base_seq(n: int):
     return [lin({("x", i): 1}) for i in range(n)]
 
 
-def pad_seq(seq, lo: int, hi: int):
-    return [lin({("lo", d): 1}) for d in range(lo, 0, -1)] + list(seq) + [lin({("hi", d): 1}) for d in range(1, hi + 1)]
+def pad_seq(seq, lo: int, hi: int, rule=None):
+    """rule None: boundary cells are placeholders ('lo', depth) / ('hi', depth).
+    rule 'fill' / 'extend' / 'wrap': numpy.pad modes constant / edge / wrap applied to the current contents."""
+    seq = list(seq)
+    if rule is None:
+        return [lin({("lo", d): 1}) for d in range(lo, 0, -1)] + seq + [lin({("hi", d): 1}) for d in range(1, hi + 1)]
+    if rule == "fill":
+        return [lin({("fill", 0): 1})] * lo + seq + [lin({("fill", 0): 1})] * hi
+    if not seq:
+        raise Unmodelled("padding an empty sequence")
+    if rule == "extend":
+        return [seq[0]] * lo + seq + [seq[-1]] * hi
+    if rule == "wrap":
+        n = len(seq)
+        return [seq[(n - d) % n] for d in range(lo, 0, -1)] + seq + [seq[(d - 1) % n] for d in range(1, hi + 1)]
+    raise Unmodelled(f"pad rule {rule!r}")
 
 
 def apply_slice(seq, s: SliceV):
@@ -194,7 +208,7 @@ def _np_call(v: Obj, n, arg_name):
 
 
 # ---------------------------------------------------------------------------------- xarray-level lineages
-def interp_xr(v: Obj, n: int, dim, axis_name=None, on_other=None):
+def interp_xr(v: Obj, n: int, dim, axis_name=None, on_other=None, rule=None):
     """Value of an xarray-level lineage along dimension `dim` (which may be renamed on the way).
 
     Returns (sequence, current dimension name, markers) where markers lists the non-sequence effects
@@ -231,7 +245,7 @@ def interp_xr(v: Obj, n: int, dim, axis_name=None, on_other=None):
                         lo, hi = w
                         if not (isinstance(lo, int) and isinstance(hi, int)):
                             raise Unmodelled("non-constant pad width")
-                        cur = pad_seq(cur, lo, hi)
+                        cur = pad_seq(cur, lo, hi, rule)
                     else:
                         markers.append(("pad-other", ax, w))
             markers.append(("pad", e[1], e[2], e[3]))
